@@ -12,8 +12,9 @@
   table size updates).
 -/
 import LtVerif.Proofs.Hpack
+import LtVerif.Proofs.H2Headers
 namespace LtVerif.C07
-open LtVerif B Hpack
+open LtVerif B Hpack H2Headers
 
 /-- Integers (RFC 7541 5.1): lshpack_dec_dec_int() reads back every uint32 for
     every prefix width and every pattern `hi` in the bits above the prefix,
@@ -188,6 +189,46 @@ theorem c07_truncated_string_is_error (cap : Nat) (huff : Nat) (len : Nat) (avai
   simp [decStr, hd, hshort]
 
 example : decStr 65535 [5, 0x61, 0x62] = .error .badData := by rfl
+
+/-- The header-id maps that tie HPACK to lighttpd's header ids are mutually
+    consistent (tables regenerated from h2.c, http_header.c, lshpack.c on every
+    run): (1) every `http_header_lc[id]` is lower case and is the name
+    http_header_hkey_get() maps to `id`; (2) `http_header_lshpack_idx[]` covers
+    every id and sends an id only to a static-table index carrying that very
+    name; (3) `lshpack_idx_http_header[]` sends a static index to the id of its
+    name, to HTTP_HEADER_OTHER only for names lighttpd has no id for, and to the
+    pseudo-header id of its name; (4) `http_headers[]` and `http_header_lc[]`
+    hold the same names. A header decoded through a static/dynamic index is
+    therefore filed under the same id as the same header sent literally. -/
+theorem c07_id_maps_consistent :
+    (∀ id, id < numIds → id ≠ 0 → hkeyGet (lcName id) = id ∧ lower (lcName id) = lcName id) ∧
+    (numIds ≤ Extracted.httpHeaderLshpackIdx.length ∧
+      ∀ id, id < numIds → Extracted.httpHeaderLshpackIdx.getD id 0 ≠ 0 →
+        Extracted.httpHeaderLshpackIdx.getD id 0 ≤ 61 ∧
+        staticName (Extracted.httpHeaderLshpackIdx.getD id 0) = lcName id) ∧
+    (Extracted.lshpackIdxHttpHeader.length = 62 ∧
+      ∀ idx, idx < 62 → idx ≠ 0 →
+        let id := Extracted.lshpackIdxHttpHeader.getD idx 0
+        (0 < id → id.toNat < numIds ∧ lcName id.toNat = staticName idx) ∧
+        (id = 0 → hkeyGet (staticName idx) = 0) ∧
+        (id < 0 → pseudoName id = staticName idx)) ∧
+    (∀ e ∈ Extracted.httpHeaders, e.1 ≠ 0 → 0 < e.1 ∧ e.1.toNat < numIds ∧ lcName e.1.toNat = e.2) :=
+  ⟨lc_hashes_to_id, lshpack_idx_names, idx_to_id_names, hkey_table_names⟩
+
+example : hkeyGet (ofString "Content-Type") = 18 ∧ lcName 18 = ofString "content-type" ∧
+    Extracted.httpHeaderLshpackIdx.getD 18 0 = 31 ∧ staticName 31 = ofString "content-type" ∧
+    Extracted.lshpackIdxHttpHeader.getD 31 0 = 18 := by decide
+
+/-- Response direction, names: whatever case a module used for a response field
+    name, the name h2_send_headers() makes the peer see is the lower-cased name
+    (through http_header_lc[], or through the static-table index lshpack is
+    told to use). -/
+theorem c07_response_names_lowercase (k v : Bytes) :
+    emitName ⟨hkeyGet k, k, v⟩ = lower k :=
+  emitName_eq_lower k v
+
+example : emitName ⟨hkeyGet (ofString "ETag"), ofString "ETag", ofString "x"⟩ = ofString "etag" := by
+  decide
 
 /-! Deviations of lshpack_dec_decode() from RFC 7541 that the model keeps (the
     correspondence check replays them against the C on every run): they are
